@@ -82,6 +82,38 @@ Definition denormalize (fl : flavour) (t : target) : str :=
   | TNorm s => match fl with Unix => s | Windows => map (fun c => if Ascii.eqb c slash then backslash else c) s end
   end.
 
+(* CreateOrUpdateFile, step 1: the continuation of an open transfer, or File::create (which follows a
+   symlink in the final component, truncates an existing file, creates a missing one). *)
+Inductive open_res := OpFile (st : dstate) | OpOutside (st : dstate) | OpErr (e : errc).
+Definition open_for_write (st : dstate) (p : path) : open_res :=
+  match d_open st with
+  | Some q =>
+      if path_eqb q p then
+        match fget (d_fs st) p with
+        | Some (NFile _ _) => OpFile (with_open st None)
+        | _ => OpOutside (with_open st None)            (* the handle points outside the tree *)
+        end
+      else OpErr EUnexpectedContinue
+  | None =>
+      match resolve_above st p with
+      | PRErr e => OpErr e
+      | PRThrough q => OpOutside (with_event st (Through q))
+      | PROk =>
+          match fget (d_fs st) p with
+          | Some (NLink _ SKFolder) | Some NFolder => OpErr EIsDir
+          | Some (NLink _ _) => OpOutside (with_event st (Through p))
+          | Some (NFile _ _) | None => OpFile (tick (with_fs st (fset (d_fs st) p (NFile (TNow (d_tick st)) []))))
+          end
+      end
+  end.
+Definition file_data (f : fs) (p : path) : str := match fget f p with Some (NFile _ d) => d | _ => [] end.
+(* step 2: write_all appends and stamps the file with the current time *)
+Definition write_chunk (st : dstate) (p : path) (data : str) : dstate :=
+  tick (with_fs st (fset (d_fs st) p (NFile (TNow (d_tick st)) (file_data (d_fs st) p ++ data)))).
+(* step 4: set_file_mtime *)
+Definition stamp_file (st : dstate) (p : path) (t : Z) : dstate :=
+  with_fs st (fset (d_fs st) p (NFile (TSet t) (file_data (d_fs st) p))).
+
 (* One command.  Result: new state and the error reported to the boss, if any. *)
 Definition doer_exec (fl : flavour) (st : dstate) (c : cmd) : dstate * option errc :=
   match c with
@@ -150,42 +182,13 @@ Definition doer_exec (fl : flavour) (st : dstate) (c : cmd) : dstate * option er
         end
       end
   | CCreateOrUpdateFile p data set_mt more =>
-      (* 1. continuation of an open transfer, or File::create *)
-      let opened : option dstate + errc :=
-        match d_open st with
-        | Some q => if path_eqb q p then inl (Some (with_open st None)) else inr EUnexpectedContinue
-        | None =>
-            match resolve_above st p with
-            | PRErr e => inr e
-            | PRThrough q => inl (Some (with_event st (Through q)))
-            | PROk =>
-                match fget (d_fs st) p with
-                | Some (NLink _ SKFolder) | Some NFolder => inr EIsDir
-                | Some (NLink _ _) => inl (Some (with_event st (Through p)))     (* open() follows the final link *)
-                | Some (NFile _ _) | None => inl (Some (tick (with_fs st (fset (d_fs st) p (NFile (TNow (d_tick st)) [])))))
-                end
-            end
-        end in
-      match opened with
-      | inr e => (with_open st None, Some e)
-      | inl None => (st, None)
-      | inl (Some st1) =>
-          (* 2. write_all: appends to the file when it is inside the tree *)
-          let st2 := match fget (d_fs st1) p with
-                     | Some (NFile _ old) => tick (with_fs st1 (fset (d_fs st1) p (NFile (TNow (d_tick st1)) (old ++ data))))
-                     | _ => st1
-                     end in
-          (* 3. remember the handle *)
-          let st3 := with_open st2 (if more then Some p else None) in
-          (* 4. set_file_mtime follows the path again *)
-          match set_mt with
-          | None => (st3, None)
-          | Some t =>
-              match fget (d_fs st3) p with
-              | Some (NFile _ dat) => (with_fs st3 (fset (d_fs st3) p (NFile (TSet t) dat)), None)
-              | _ => (st3, None)
-              end
-          end
+      match open_for_write st p with
+      | OpErr e => (with_open st None, Some e)
+      | OpOutside st1 => (with_open st1 (if more then Some p else None), None)
+      | OpFile st1 =>
+          (* write_all appends; the handle is remembered when more chunks follow; set_file_mtime last *)
+          let st2 := with_open (write_chunk st1 p data) (if more then Some p else None) in
+          (match set_mt with Some t => stamp_file st2 p t | None => st2 end, None)
       end
   end.
 
